@@ -46,7 +46,7 @@ PROP = dict(
     ],
     units=[
         R("rapid", "A", "./c20", "TestC20Rapid", (600, 4), (4000, 16)),
-        E("enum_trunc", "A", "./c20", "TestC20EnumTrunc", 4, 16),
+        E("enum_trunc", "A", "./c20", "TestC20EnumTrunc", 6, 16),
         E("enum_faults", "A", "./c20", "TestC20EnumFaults", 2, 4),
         R("ids", "B", "./storage/db", "TestC20IDHistory", (400, 2), (4000, 8)),
         R("ids_concurrent", "B", "./storage/db", "TestC20IDConcurrent", (25, 4), (120, 16), race=True),
